@@ -777,3 +777,181 @@ func TestC02Redirect(t *testing.T) {
 		Check: c02RedirCheck,
 	})
 }
+
+// ---------------------------------------------------------------- C08 / C10: many services probed concurrently by the real scanners
+//
+// A whole subnet of scripted services, each with its own identity, scanned by the real command with many workers: every
+// service is asked exactly once and the record of an address carries that address's own data.
+
+type c08SvcCase struct {
+	Scan    string  `json:"scan"`
+	Proto   string  `json:"proto"`
+	Workers int     `json:"workers"`
+	Bits    int     `json:"prefix_bits"`
+	Net     [2]byte `json:"net"`                                // 127.a.b.0
+	Down    []int   `json:"hosts_not_listening_like_a_service"` // offsets whose server closes the connection at once
+	// 403 / empty / null / truncated answers to /_aliases resp. /version: still exactly one record
+	NoSecond []int `json:"services_refusing_the_secondary_request"`
+}
+
+func c08SvcCheck(c c08SvcCase) *kit.Verdict {
+	n := 1 << uint(32-c.Bits)
+	v := &kit.Verdict{Units: n}
+	v.Label("scan=%s/%s", c.Scan, c.Proto)
+	v.Label("workers=%s", bucket(c.Workers, 0, 1, 2, 8, 64))
+	srv := c10GetServer()
+	l := srv.plain
+	if c.Proto == "https" {
+		l = srv.tls
+	}
+	port := l.Addr().(*net.TCPAddr).Port
+	down := map[int]bool{}
+	for _, d := range c.Down {
+		down[d%n] = true
+	}
+	noSecond := map[int]int{}
+	for k, d := range c.NoSecond {
+		noSecond[d%n] = k
+	}
+	scripts := map[int]*c10Script{}
+	ident := func(i int) string { return fmt.Sprintf("svc-%d-%d-%d", c.Net[0], c.Net[1], i) }
+	srv.mu.Lock()
+	for i := 0; i < n; i++ {
+		ip := [4]byte{127, c.Net[0], c.Net[1], byte(i)}
+		if srv.scripts[ip] != nil {
+			srv.mu.Unlock()
+			return &kit.Verdict{Inconclusive: true}
+		}
+	}
+	for i := 0; i < n; i++ {
+		if down[i] {
+			continue
+		}
+		ip := [4]byte{127, c.Net[0], c.Net[1], byte(i)}
+		obj := fmt.Sprintf(`{"ID":"%s","Name":"%s","cluster_name":"%s"}`, ident(i), ident(i), ident(i))
+		sc := &c10Script{release: make(chan struct{}), c: c10Case{Scan: c.Scan, Proto: c.Proto, IP: ip,
+			Ping:    c10Resp{Status: 200, Framing: "length", Kind: "empty", APIVersion: "1.41"},
+			Primary: c10Resp{Status: 200, Framing: "length", Kind: "object", Body: obj},
+			Second:  c10Resp{Status: 200, Framing: "length", Kind: "object", Body: fmt.Sprintf(`{"Version":"%s","%s":{"aliases":{}}}`, ident(i), ident(i))}}}
+		if k, bad := noSecond[i]; bad {
+			sc.c.Second = []c10Resp{{Status: 403, Framing: "length", Kind: "nonjson", Body: "Forbidden"}, {Status: 200, Framing: "length", Kind: "empty"},
+				{Status: 200, Framing: "length", Kind: "null", Body: "null"}, {Status: 500, Framing: "close", Kind: "truncated", Body: `{"error":`}}[k%4]
+		}
+		srv.scripts[ip] = sc
+		scripts[i] = sc
+	}
+	srv.mu.Unlock()
+	defer func() {
+		srv.mu.Lock()
+		for i, sc := range scripts {
+			close(sc.release)
+			delete(srv.scripts, [4]byte{127, c.Net[0], c.Net[1], byte(i)})
+		}
+		srv.mu.Unlock()
+	}()
+	args := []string{c.Scan, "--json", "--timeout", "5s", "--exit-delay", "300ms", "-w", fmt.Sprint(c.Workers), "-p", fmt.Sprint(port), "--proto", c.Proto,
+		fmt.Sprintf("127.%d.%d.0/%d", c.Net[0], c.Net[1], c.Bits)}
+	res := runCmd(cmdRun{Args: args, Timeout: 90 * time.Second})
+	line := "sx " + strings.Join(args, " ")
+	if res.Hung || res.Err != nil {
+		return v.Failf("%s: hung=%v err=%v", line, res.Hung, res.Err)
+	}
+	// every service asked for its info exactly once
+	for i, sc := range scripts {
+		prim := 0
+		for _, r := range sc.requests() {
+			if (c.Scan == "elastic" && r == "GET /") || (c.Scan == "docker" && strings.HasPrefix(r, "GET ") && strings.HasSuffix(r, "/info")) {
+				prim++
+			}
+		}
+		if prim != 1 {
+			return v.Failf("%s\nthe service at 127.%d.%d.%d received %d info requests (%v), expected exactly one", line, c.Net[0], c.Net[1], i, prim, sc.requests())
+		}
+	}
+	// one record per service, carrying its own data
+	seen := map[string]int{}
+	for _, ln := range strings.Split(strings.TrimSuffix(res.Stdout, "\n"), "\n") {
+		if ln == "" {
+			continue
+		}
+		var rec struct {
+			Host    string                 `json:"host"`
+			Info    map[string]interface{} `json:"info"`
+			Version map[string]interface{} `json:"version"`
+			Indexes map[string]interface{} `json:"indexes"`
+		}
+		if err := json.Unmarshal([]byte(ln), &rec); err != nil {
+			return v.Failf("%s: record %q: %v", line, clipN(ln, 200), err)
+		}
+		hp := strings.TrimPrefix(rec.Host, "tcp://")
+		var a, b, i, p int
+		if _, err := fmt.Sscanf(hp, "127.%d.%d.%d:%d", &a, &b, &i, &p); err != nil || a != int(c.Net[0]) || b != int(c.Net[1]) || p != port || scripts[i] == nil {
+			return v.Failf("%s: record for %q, which is not one of the services", line, rec.Host)
+		}
+		seen[hp]++
+		id, _ := rec.Info["ID"].(string)
+		if c.Scan == "elastic" {
+			id, _ = rec.Info["cluster_name"].(string)
+		}
+		if id != ident(i) {
+			return v.Failf("%s\nthe record of %s carries the data of another service: %q, expected %q\n%s", line, rec.Host, id, ident(i), clipN(ln, 300))
+		}
+		if _, bad := noSecond[i]; bad {
+			// the secondary request failed: the record is still there (checked below), without secondary data of anybody else
+			if ver, _ := rec.Version["Version"].(string); ver != "" || len(rec.Indexes) != 0 {
+				return v.Failf("%s\nthe record of %s carries secondary data although its secondary request was refused: %s", line, rec.Host, clipN(ln, 300))
+			}
+		} else if c.Scan == "docker" {
+			if ver, _ := rec.Version["Version"].(string); ver != ident(i) {
+				return v.Failf("%s\nthe record of %s carries version %q, expected %q", line, rec.Host, ver, ident(i))
+			}
+		} else if _, ok := rec.Indexes[ident(i)]; !ok {
+			return v.Failf("%s\nthe record of %s carries the indexes of another service: %v", line, rec.Host, rec.Indexes)
+		}
+	}
+	for i := range scripts {
+		hp := fmt.Sprintf("127.%d.%d.%d:%d", c.Net[0], c.Net[1], i, port)
+		if seen[hp] != 1 {
+			return v.Failf("%s\n%d records for the service at %s, expected exactly one\nstderr: %s", line, seen[hp], hp, clipN(res.Stderr, 500))
+		}
+	}
+	// each failed probe (an address that closes the connection at once): exactly one error record on stderr
+	for i := 0; i < n; i++ {
+		if !down[i] {
+			continue
+		}
+		hp := fmt.Sprintf("127.%d.%d.%d:%d", c.Net[0], c.Net[1], i, port)
+		cnt := 0
+		for _, ln := range strings.Split(res.Stderr, "\n") {
+			if strings.Contains(ln, `"level":"error"`) && strings.Contains(ln, hp) {
+				cnt++
+			}
+		}
+		if cnt != 1 {
+			return v.Failf("%s\nthe probe of %s failed (the peer closed the connection at once): %d error records name it on stderr, expected exactly one\nstderr: %s", line, hp, cnt, clipN(res.Stderr, 600))
+		}
+		v.Label("failed-probes")
+	}
+	v.NonTrivial = len(scripts) >= 4 && c.Workers >= 2
+	return v
+}
+
+func TestC08Services(t *testing.T) {
+	kit.Run(t, kit.Spec[c08SvcCase]{
+		Prop: "C08",
+		Rule: "full elastic / docker commands (http, https) over a /29../26 of loopback addresses, each address a scripted service with its own identity (ID, name, cluster, version, index names) or a port that closes the connection at once; some services refuse the secondary request (403 text, empty, null, truncated); workers 1..200. Oracle: every service received exactly one info request, stdout has exactly one record per service, the record of an address carries that address's own info and secondary data (nothing attributed to another target), and every address that closed the connection has exactly one error record on stderr. non-trivial: >=4 services and >=2 workers; distinct by case",
+		Gen: func(t *rapid.T) c08SvcCase {
+			c := c08SvcCase{Scan: rapid.SampledFrom([]string{"docker", "elastic"}).Draw(t, "scan"), Proto: rapid.SampledFrom([]string{"http", "http", "https"}).Draw(t, "proto"),
+				Workers: rapid.SampledFrom([]int{1, 2, 8, 24, 200}).Draw(t, "workers"), Bits: rapid.IntRange(26, 29).Draw(t, "bits"),
+				Net: [2]byte{byte(rapid.IntRange(100, 250).Draw(t, "a")), byte(rapid.IntRange(0, 255).Draw(t, "b"))}}
+			for k := rapid.IntRange(0, 3).Draw(t, "ndown"); k > 0; k-- {
+				c.Down = append(c.Down, rapid.IntRange(0, 63).Draw(t, "down"))
+			}
+			for k := rapid.IntRange(0, 4).Draw(t, "nnosecond"); k > 0; k-- {
+				c.NoSecond = append(c.NoSecond, rapid.IntRange(0, 63).Draw(t, "nosecond"))
+			}
+			return c
+		},
+		Check: c08SvcCheck,
+	})
+}
